@@ -38,11 +38,13 @@ def main(prop, tier, only=None, caps=None):
     run_units(prop, tier, units, rule, assumptions, rep=rep, finish=False)
     # std::string overloads, at(), str(), substr(), operator<< : E2 with the real std::string as oracle
     from e2 import E2Unit, run_e2
-    e2caps = [3] if tier == 'quick' else [1, 3, 4]
+    e2caps = [3, 255, 256] if tier == 'quick' else [1, 3, 4, 254, 255, 256, 257]
     e2units = []
     for L in e2caps:
-        shapes = [('hx_fs_str', [op, 0 if prop == 'C10' else 1], 'L%d/strop%d' % (L, op)) for op in range(26) if not (prop == 'C10' and op in (22, 25))]
+        shapes = [('hx_fs_str', [op, 0 if prop == 'C10' else 1], 'L%d/strop%d' % (L, op)) for op in range(26) if not (prop == 'C10' and op in (22, 25)) and not (L > 16 and op >= 10 and op not in (22, 23, 24))]
         for n in ([256, 259] if tier == 'quick' else [255, 256, 257, 259, 260, 512, 515, 65536, 65539]):
+            if L > 16:
+                break
             shapes += [('hx_fs_long', [op, n], 'L%d/longop%d/src%d' % (L, op, n)) for op in range(10)]
         shapes += [('hx_fs_sprintf', [m], 'L%d/sprintf%d' % (L, m)) for m in range(5)]
         if only:
